@@ -749,8 +749,28 @@ def retry(ctx: Ctx) -> None:
     f = repo.get(f"{A.RT_LOCAL}.threads_create_futures_func")
     cfg = cfg_of(f)
     fl = flow_of(repo, f)
-    rets = [c for c in f.own_nodes() if isinstance(c, ast.Call) and any(t.qual == "tenacity.Retrying" for t in repo.resolve_call(c, f, f.module))]
+    def _retryings(d):
+        return [c for c in d.own_nodes() if isinstance(c, ast.Call) and any(t.qual == "tenacity.Retrying" for t in repo.resolve_call(c, d, d.module))]
+
+    rets = _retryings(f)
+    W, wcfg, rname, helper_call = f, cfg, "retries", None
+    if not rets:
+        # the wrapping may live in a private helper: function = _helper(function, retries)
+        for c in f.own_nodes():
+            if isinstance(c, ast.Call):
+                for t in repo.resolve_call(c, f, f.module):
+                    if t.kind == "def" and t.ref.is_func and t.ref.module is f.module and t.ref is not f and _retryings(t.ref):
+                        pos = [i for i, a in enumerate(c.args) if isinstance(a, ast.Name) and a.id == "retries"]
+                        kw_ = [k.arg for k in c.keywords if isinstance(k.value, ast.Name) and k.value.id == "retries"]
+                        if pos and pos[0] < len(t.ref.positional_params):
+                            W, rname, helper_call = t.ref, t.ref.positional_params[pos[0]], c
+                        elif kw_:
+                            W, rname, helper_call = t.ref, kw_[0], c
+        if W is not f:
+            wcfg = cfg_of(W)
+            rets = _retryings(W)
     ctx.ob(f, f.node, bool(rets), "the thread future factory builds a tenacity Retrying wrapper", sel="retry:present")
+    f_outer, f, cfg = f, W, wcfg
     for c in rets:
         rr = kwarg(c, "reraise")
         ok = isinstance(rr, ast.Constant) and rr.value is True
@@ -760,17 +780,18 @@ def retry(ctx: Ctx) -> None:
         got = unparse(stop)
         if isinstance(stop, ast.Call) and any(t.qual == "tenacity.stop_after_attempt" for t in repo.resolve_call(stop, f, f.module)) and stop.args:
             lf = linear_of(stop.args[0])
-            ok = lf is not None and lf.coeffs == {("retries",): 1} and lf.const == 1
+            ok = lf is not None and lf.coeffs == {(rname,): 1} and lf.const == 1
         ctx.ob(f, c, ok, f"attempt bound must be retries + 1 (found `{got}`)", sel="retry:bound")
         # guard: wrapper installed whenever retries != 0
         nid = cfg.node_of(c)
         conds = facts_at(cfg, nid)
         okg = all(
-            isinstance(t, ast.Compare) and isinstance(t.left, ast.Name) and t.left.id == "retries" and isinstance(t.comparators[0], ast.Constant) and t.comparators[0].value == 0 and (isinstance(t.ops[0], ast.NotEq) == pol and isinstance(t.ops[0], (ast.Eq, ast.NotEq)) or (isinstance(t.ops[0], ast.Gt) and pol))
+            isinstance(t, ast.Compare) and isinstance(t.left, ast.Name) and t.left.id == rname and isinstance(t.comparators[0], ast.Constant) and t.comparators[0].value == 0 and (isinstance(t.ops[0], ast.NotEq) == pol and isinstance(t.ops[0], (ast.Eq, ast.NotEq)) or (isinstance(t.ops[0], ast.Gt) and pol))
             for t, pol in conds
         )
         ctx.ob(f, c, okg, "the retrier is installed whenever retries != 0", sel="retry:guard")
     # the submitted callable is the wrapped function
+    f, cfg = f_outer, cfg_of(f_outer)
     inner = [ch for ch in f.children.values()]
     wrapped_used = False
     for ch in inner:
@@ -783,6 +804,12 @@ def retry(ctx: Ctx) -> None:
         for nid, ss in fl.sites.items()
         for s in ss
     )
+    if helper_call is not None:
+        # function = helper(function, retries), and the helper returns partial(<retrier>, fn)
+        rebound = any(s.name == "function" and s.kind == "assign" and s.value is helper_call for ss in fl.sites.values() for s in ss)
+        wfl = flow_of(repo, W)
+        rvars = {s2.name for ss in wfl.sites.values() for s2 in ss if s2.kind == "assign" and s2.value in rets}
+        rebound = rebound and any(r.value is not None and (any(isinstance(x, ast.Name) and x.id in rvars for x in ast.walk(r.value)) or any(x in rets for x in ast.walk(r.value))) for r in W.own_nodes() if isinstance(r, ast.Return))
     ctx.ob(f, f.node, wrapped_used and rebound, "the submitted callable is the retry-wrapped function", sel="retry:wrapped-submitted")
     # the executor hands the user's `retries` option to the factory unmodified (0 = no retries)
     ex = repo.get(f"{A.RT_LOCAL}.ThreadsExecutor._async_execute_dag")
